@@ -102,6 +102,8 @@ def generate(seed, tier):
             "values": vals,
             "spreads": spreads,
             "extra_metric": r.random() < 0.3,
+            # what the metric callable returns
+            "value_type": r.choice(["float", "float", "np_float", "tensor0d", "np0d"]),
         },
     }
 
@@ -144,6 +146,13 @@ def execute(plan):
         t = min(idx["t"], len(vals) - 1)
         idx["t"] += 1
         H.append((cur["epoch"], vals[t], None))
+        vt = c.get("value_type", "float")
+        if vt == "np_float":
+            return np.float64(vals[t])
+        if vt == "tensor0d":
+            return torch.tensor(vals[t], dtype=torch.double)
+        if vt == "np0d":
+            return np.array(vals[t])
         return vals[t]
 
     with rng:
@@ -372,6 +381,8 @@ def shrink(plan):
         out.append(q)
     if c.get("extra_metric"):
         out.append(v(extra_metric=False))
+    if c.get("value_type", "float") != "float":
+        out.append(v(value_type="float"))
     if c.get("criterion_spelling", "plain") != "plain":
         out.append(v(criterion_spelling="plain"))
     if c.get("variance_name") not in (None,):
